@@ -6,7 +6,8 @@
 //!   W   obtain the writer (zone.write()), P  ask for a second writer while the first is open (its future must stay
 //!       pending), A  after the first writer is gone, the waiting writer gets the zone
 //!   O0 / O1   open the writer without / with diff tracking
-//!   U..  update_rrset / D.. remove_rrset on three owner names (one of them new, one holding two records)
+//!   U..  update_rrset / D.. remove_rrset on three owner names (one of them new, one holding two records; one update
+//!        changes only the TTL of an RRset, one changes records and TTL)
 //!   C   commit(true) (the SOA serial is bumped so that a diff can be built; the writer stays and can be opened again), X  drop the writer without commit
 //! is run on a fresh three-name zone and compared after *every* step with a map model: each held reader walks and
 //! queries exactly the content that was committed when it was taken; a new reader sees exactly the committed
@@ -48,13 +49,13 @@ fn now<T>(mut f: Pin<Box<dyn Future<Output = T> + Send + Sync>>) -> Result<T, St
     Err("a future that should be ready stays pending".into())
 }
 
-type Content = BTreeMap<&'static str, Vec<u8>>; // owner label -> last octets of the A records (sorted)
+type Content = BTreeMap<&'static str, (u32, Vec<u8>)>; // owner label -> TTL and last octets of the A records (sorted)
 type Snap = BTreeSet<String>;
 
 const NAMES: [&str; 3] = ["x", "y", "g"];
 
-fn a_rrset(last: &[u8]) -> SharedRrset {
-    let mut rrset = Rrset::new(Rtype::A, Ttl::from_secs(300));
+fn a_rrset(ttl: u32, last: &[u8]) -> SharedRrset {
+    let mut rrset = Rrset::new(Rtype::A, Ttl::from_secs(ttl));
     for l in last {
         rrset.push_data(ZoneRecordData::A(A::from_octets(192, 0, 2, *l)));
     }
@@ -75,24 +76,24 @@ fn name(l: &str) -> Name<Bytes> {
 }
 fn initial() -> Content {
     let mut c = Content::new();
-    c.insert("x", vec![1, 2]);
-    c.insert("y", vec![7]);
+    c.insert("x", (300, vec![1, 2]));
+    c.insert("y", (300, vec![7]));
     c
 }
 fn mk_zone() -> Zone {
     let apex = Name::<Bytes>::from_str("example.com").unwrap();
     let mut b = ZoneBuilder::new(apex.clone(), Class::IN);
     b.insert_rrset(&apex, soa_rrset()).unwrap();
-    for (l, v) in initial() {
-        b.insert_rrset(&name(l), a_rrset(&v)).unwrap();
+    for (l, (ttl, v)) in initial() {
+        b.insert_rrset(&name(l), a_rrset(ttl, &v)).unwrap();
     }
     b.build()
 }
 fn expected_snap(c: &Content) -> Snap {
     let mut s = Snap::new();
-    for (l, v) in c {
+    for (l, (ttl, v)) in c {
         for o in v {
-            s.insert(format!("{l}.example.com A 192.0.2.{o}"));
+            s.insert(format!("{l}.example.com {ttl} A 192.0.2.{o}"));
         }
     }
     s
@@ -103,7 +104,7 @@ fn walk(reader: &dyn ReadableZone) -> Result<Snap, String> {
     let out2 = out.clone();
     reader.walk(Box::new(move |owner, rrset, _cut| {
         for d in rrset.data() {
-            out2.lock().unwrap().push(format!("{} {} {}", owner, rrset.rtype(), d));
+            out2.lock().unwrap().push(format!("{} {} {} {}", owner, rrset.ttl().as_secs(), rrset.rtype(), d));
         }
     }));
     let v = out.lock().unwrap().clone();
@@ -127,6 +128,8 @@ fn query(reader: &dyn ReadableZone, l: &str) -> Result<Vec<u8>, String> {
     let answer = reader.query(name(l), Rtype::A).map_err(|_| "query: out of zone".to_string())?;
     Ok(match answer.content() {
         AnswerContent::Data(rrset) => {
+            // the first element is the TTL in units of 100 s (300 -> 3, 600 -> 6), then the last octets
+            let t = (rrset.ttl().as_secs() / 100) as u8;
             let mut v: Vec<u8> = rrset
                 .data()
                 .iter()
@@ -136,6 +139,7 @@ fn query(reader: &dyn ReadableZone, l: &str) -> Result<Vec<u8>, String> {
                 })
                 .collect();
             v.sort();
+            v.insert(0, t);
             v
         }
         AnswerContent::Cname(_) => vec![254],
@@ -150,7 +154,7 @@ fn check_reader(what: &str, reader: &dyn ReadableZone, want: &Content) -> Result
     }
     for l in NAMES {
         let q = query(reader, l).map_err(|e| format!("{what}: {e}"))?;
-        let w = want.get(l).cloned().unwrap_or_default();
+        let w = want.get(l).map(|(ttl, v)| { let mut w = vec![(ttl / 100) as u8]; w.extend(v); w }).unwrap_or_default();
         if q != w {
             return Err(format!("{what}: query {l} A gives {q:?}, the reader's version holds {w:?}"));
         }
@@ -159,8 +163,8 @@ fn check_reader(what: &str, reader: &dyn ReadableZone, want: &Content) -> Result
 }
 
 #[derive(Clone, Copy, Debug, PartialEq, Eq)]
-enum Op { R, W, P, A, O0, O1, Ux2, Ux13, Dx, Ug3, Dg, Uy8, Dy, C, X }
-const OPS: [Op; 15] = [Op::R, Op::W, Op::P, Op::A, Op::O0, Op::O1, Op::Ux2, Op::Ux13, Op::Dx, Op::Ug3, Op::Dg, Op::Uy8, Op::Dy, Op::C, Op::X];
+enum Op { R, W, P, A, O0, O1, Ux2, Ux13, Ux12t, Dx, Ug3, Dg, Uy8, Dy, C, X }
+const OPS: [Op; 16] = [Op::R, Op::W, Op::P, Op::A, Op::O0, Op::O1, Op::Ux2, Op::Ux13, Op::Ux12t, Op::Dx, Op::Ug3, Op::Dg, Op::Uy8, Op::Dy, Op::C, Op::X];
 
 struct World {
     zone: Zone,
@@ -185,21 +189,21 @@ impl World {
             Op::P => self.writer.is_some() && self.pending.is_none(),
             Op::A => self.writer.is_none() && self.pending.is_some(),
             Op::O0 | Op::O1 => self.writer.is_some() && self.node.is_none(),
-            Op::Ux2 | Op::Ux13 | Op::Dx | Op::Ug3 | Op::Dg | Op::Uy8 | Op::Dy => self.node.is_some(),
+            Op::Ux2 | Op::Ux13 | Op::Ux12t | Op::Dx | Op::Ug3 | Op::Dg | Op::Uy8 | Op::Dy => self.node.is_some(),
             Op::C => self.writer.is_some(),
             Op::X => self.writer.is_some(),
         }
     }
-    fn edit(&mut self, l: &'static str, val: Option<&[u8]>) -> Result<(), String> {
+    fn edit(&mut self, l: &'static str, val: Option<(u32, &[u8])>) -> Result<(), String> {
         let node = self.node.as_ref().unwrap();
         let child = now(node.update_child(Label::from_slice(l.as_bytes()).unwrap()))?.map_err(|e| e.to_string())?;
         match val {
-            Some(v) => now(child.update_rrset(a_rrset(v)))?.map_err(|e| e.to_string())?,
+            Some((ttl, v)) => now(child.update_rrset(a_rrset(ttl, v)))?.map_err(|e| e.to_string())?,
             None => now(child.remove_rrset(Rtype::A))?.map_err(|e| e.to_string())?,
         }
         let st = self.staged.as_mut().unwrap();
         match val {
-            Some(v) => { st.insert(l, v.to_vec()); }
+            Some((ttl, v)) => { st.insert(l, (ttl, v.to_vec())); }
             None => { st.remove(l); }
         }
         Ok(())
@@ -240,12 +244,14 @@ impl World {
                 }
                 self.opens = (self.opens.0 + 1, self.opens.1 && diff);
             }
-            Op::Ux2 => self.edit("x", Some(&[2]))?,
-            Op::Ux13 => self.edit("x", Some(&[1, 3]))?,
+            Op::Ux2 => self.edit("x", Some((300, &[2])))?,
+            Op::Ux13 => self.edit("x", Some((300, &[1, 3])))?,
+            // the same records under another TTL
+            Op::Ux12t => self.edit("x", Some((600, &[1, 2])))?,
             Op::Dx => self.edit("x", None)?,
-            Op::Ug3 => self.edit("g", Some(&[3]))?,
+            Op::Ug3 => self.edit("g", Some((300, &[3])))?,
             Op::Dg => self.edit("g", None)?,
-            Op::Uy8 => self.edit("y", Some(&[8]))?,
+            Op::Uy8 => self.edit("y", Some((600, &[8])))?,
             Op::Dy => self.edit("y", None)?,
             Op::C => {
                 self.node = None;
@@ -258,7 +264,7 @@ impl World {
                     for ((owner, rtype), rrset) in diff.removed.iter() {
                         if *rtype != Rtype::A { continue; }
                         for d in rrset.data() {
-                            let line = format!("{owner} A {d}");
+                            let line = format!("{owner} {} A {d}", rrset.ttl().as_secs());
                             if !c.remove(&line) {
                                 return Err(format!("the diff removes {line}, which the previous version does not hold"));
                             }
@@ -267,7 +273,7 @@ impl World {
                     for ((owner, rtype), rrset) in diff.added.iter() {
                         if *rtype != Rtype::A { continue; }
                         for d in rrset.data() {
-                            c.insert(format!("{owner} A {d}"));
+                            c.insert(format!("{owner} {} A {d}", rrset.ttl().as_secs()));
                         }
                     }
                     let exp = expected_snap(&new);
@@ -326,7 +332,7 @@ fn main() {
                 // interesting sequences contain a writer; skip sequences of readers only beyond length 2
                 if s.iter().all(|o| *o == Op::R) && s.len() > 1 { continue; }
                 // at most three edits per sequence keeps the space small without losing the two-edits-per-RRset cases
-                if s.iter().filter(|o| matches!(o, Op::Ux2 | Op::Ux13 | Op::Dx | Op::Ug3 | Op::Dg | Op::Uy8 | Op::Dy)).count() > 3 { continue; }
+                if s.iter().filter(|o| matches!(o, Op::Ux2 | Op::Ux13 | Op::Ux12t | Op::Dx | Op::Ug3 | Op::Dg | Op::Uy8 | Op::Dy)).count() > 3 { continue; }
                 count += 1;
                 let r = std::panic::catch_unwind(|| run(&s));
                 match r {
